@@ -292,6 +292,9 @@ func (m *Model) Step(e Ev) Result {
 			if !m.known(e.Pid) {
 				return Result{Exp: ExpReject, Why: "unknown participant"}
 			}
+			if e.Batch > 0 {
+				return Result{Exp: ExpReject, Why: "failure report made for another batch"}
+			}
 			if (m.Conf|m.Failed)&(1<<uint(e.Pid)) != 0 {
 				return Result{Exp: ExpReject, Why: "participant already answered"}
 			}
